@@ -47,7 +47,10 @@ RULE_ADDED = (
               ' '
               'Round 13: padded / doubled signed messages with an element member (extract, slic'
               'e, range ...) naming the well-formed part; genuine certificates with such member'
-              's. ')
+              's. '
+              ' '
+              'Round 14: a third of the verifications with terminal size, locale and similar va'
+              'riables exported (COLUMNS, LINES, TERM, LANG ...). ')
 RULE = RULE + " " + RULE_ADDED.strip()
 ASSUMPTIONS = [
     "stdout of the commands is parsed by label ('UD value:', 'Hash:', ...)",
